@@ -20,6 +20,10 @@ RULE = ('atomically balanced stoichiometries drawn from the null space of the C/
         'About 30 % of the well-formed cases first run a history of 1-5 operations on COPIES of the members (item / slice item '
         'copy with and without re-basing, backwards, basis setter and copy/backwards of the derived reactions) before the '
         'original object is applied; per-step success, the derived reactions and object identity of the arrays are compared too. '
+        'The history steps also include in-place += / -= of derived reactions (bases may differ), correct_atomic_balance with '
+        'explicit constants (the linear solve is an oracle computed exactly by the harness) and set.copy(basis); in two extra '
+        'families (unbalanced reaction corrected and used; versions of one reaction on different bases lumped and used) and in '
+        'half of the other histories a DERIVED reaction is what gets applied. Streams may have cached mass/volume views. '
         'non-trivial = the call returned normally and changed a flow, or raised; distinct = distinct case hash')
 ASSUMPTIONS = ['float rounding is not modelled: values compared to 1e-9 relative; inputs are dyadic so branch decisions agree',
                'molecular weights are positive (Chemical replaces a missing MW by 1)']
@@ -255,8 +259,14 @@ def gen_case(rng):
         if mk == 'numpy' and rng.random() < 0.05:
             mat['flows'][rng.randrange(P * N)] = -1.0
     case['material'] = mat
-    if mal is None and not case.get('post_rebase') and rng.random() < 0.3:
+    if mal is None and not case.get('post_rebase') and rng.random() < 0.35:
         case['history'] = gen_history(rng, case)
+        if mk not in ('stream', 'numpy', 'sparse'): case.pop('use_derived', None)
+        elif 'use_derived' not in case and rng.random() < 0.5:
+            case['use_derived'] = rng.randrange(64)       # apply one of the derived reactions instead of the original
+        if case.get('use_derived') is None: case.pop('use_derived', None)
+    if mk in ('stream', 'other', 'massview') and rng.random() < 0.3:
+        mat['pre_views'] = True                           # mass / volume views of the stream exist (are cached) beforehand
     return case
 
 def gen_history(rng, case):
@@ -264,15 +274,83 @@ def gen_history(rng, case):
     ids_in = sorted({t[1] for s in case['rxns'] for t in s['terms'] if t[1] in IDS})
     def reactant(): return rng.choice([None, None] + ids_in)
     def X(): return rng.choice([None, None, 0.5, 0.25, 1.0])
+    if rng.random() < 0.3:
+        # family: several versions of ONE member (bases may differ), lumped in place, then some more
+        m = rng.randrange(64)
+        nc = rng.randint(2, 3)
+        for _ in range(nc):
+            ops.append(['itemcopy', m, 0, rng.choice([None, 'mol', 'wt', 'wt'])])
+        for _ in range(rng.randint(1, 3)):
+            j = rng.randrange(nc); k = rng.choice([x for x in range(nc) if x != j])
+            ops.append([rng.choice(['iadd', 'iadd', 'isub']), j, k])
+        case['use_derived'] = ops[-1][1] if rng.random() < 0.8 else None    # mostly: the lumped reaction is what gets applied
+        return ops
     for _ in range(rng.randint(1, 5)):
-        o = rng.choice(['itemcopy', 'itemcopy', 'itemcopy', 'itembackwards', 'setbasis', 'setbasis', 'copy', 'backwards'])
+        o = rng.choice(['itemcopy', 'itemcopy', 'itemcopy', 'itembackwards', 'setbasis', 'setbasis', 'copy', 'backwards',
+                        'iadd', 'isub', 'cab', 'setcopy'])
         i = rng.randrange(64)
         if o == 'itemcopy': ops.append([o, i, rng.randrange(64), rng.choice([None, 'mol', 'wt', 'wt'])])
         elif o == 'itembackwards': ops.append([o, i, reactant(), X()])
         elif o == 'setbasis': ops.append([o, i, rng.choice(['mol', 'wt', 'wt'])])
         elif o == 'copy': ops.append([o, i, rng.choice([None, 'mol', 'wt'])])
+        elif o in ('iadd', 'isub'): ops.append([o, i, rng.randrange(64)])
+        elif o == 'cab': ops.append([o, i, rng.choice([None, [rng.randrange(8)], [rng.randrange(8), rng.randrange(8)]])])
+        elif o == 'setcopy': ops.append([o, i, rng.choice([None, 'wt', 'wt', 'mol'])])
         else: ops.append([o, i, reactant(), X()])
     return ops
+
+def gen_lump_case(rng):
+    """versions of one balanced reaction on different bases lumped in place (+=, -=); the lump is applied"""
+    phases = rng.choice([[], [], ['g', 'l'], ['l', 's']])
+    basis = rng.choice(['mol', 'wt'])
+    spec = gen_rxn(rng, phases, basis)
+    spec['X'] = float(rng.choice([F(1, 8), F(1, 4), F(3, 8), F(1, 2)]))
+    if spec['reactant'] is None: spec['reactant'] = next(t[1] for t in spec['terms'] if t[2] < 0)
+    P = max(1, len(phases))
+    other = 'wt' if basis == 'mol' else 'mol'
+    hist = [['itemcopy', 0, 0, rng.choice([None, basis])], ['itemcopy', 0, 0, other]]
+    if rng.random() < 0.4: hist.append(['itemcopy', 0, 0, rng.choice([None, 'mol', 'wt'])])
+    nc = len(hist)
+    j = rng.randrange(nc); k = rng.choice([x for x in range(nc) if x != j])
+    hist.append(['iadd', j, k])
+    if rng.random() < 0.4:
+        k2 = rng.choice([x for x in range(nc) if x != j]); hist.append([rng.choice(['iadd', 'isub']), j, k2])
+    case = {'phases': phases, 'kind': 'single', 'rxns': [spec], 'history': hist, 'use_derived': j}
+    flows = gen_feed(rng, case, P * N, True)
+    r = IDS.index(spec['reactant'])
+    for p in range(P): flows[p * N + r] = float(rng.choice([1, 2, 4]))
+    case['material'] = {'kind': rng.choice(['stream', 'stream', 'numpy']), 'flows': flows}
+    return case
+
+def gen_setcopy_case(rng):
+    """a parallel / series set is copied to the other basis (and the copy perhaps used); then the ORIGINAL set is applied"""
+    phases = rng.choice([[], [], ['g', 'l']])
+    basis = rng.choice(['mol', 'mol', 'wt'])
+    kind = rng.choice(['parallel', 'series'])
+    case = {'phases': phases, 'kind': kind, 'rxns': [gen_rxn(rng, phases, basis) for _ in range(rng.randint(1, 3))]}
+    for r in case['rxns']: r['X'] = float(rng.choice([F(1, 8), F(1, 4), F(1, 2)]))
+    other = 'wt' if basis == 'mol' else 'mol'
+    case['history'] = [['setcopy', 0, rng.choice([other, other, None])]]
+    if rng.random() < 0.5: case['history'].append(['itemcopy', rng.randrange(8), 0, rng.choice([None, 'wt', 'mol'])])
+    P = max(1, len(phases))
+    case['material'] = {'kind': rng.choice(['stream', 'stream', 'numpy']), 'flows': gen_feed(rng, case, P * N, True)}
+    return case
+
+def gen_cab_case(rng):
+    """an UNBALANCED reaction whose atomic balance is corrected holding some coefficients constant (possibly not the
+    reactant's), then used"""
+    phases = rng.choice([[], [], ['g', 'l'], ['g', 'l', 's']])
+    basis = rng.choice(['mol', 'mol', 'wt'])
+    spec = gen_rxn(rng, phases, basis, 'unbalanced')
+    P = max(1, len(phases))
+    case = {'phases': phases, 'kind': 'single', 'rxns': [spec],
+            'history': [['itemcopy', 0, 0, None],
+                        ['cab', 0, rng.choice([None, [rng.randrange(8)], [rng.randrange(8), rng.randrange(8)],
+                                               [rng.randrange(8), rng.randrange(8), rng.randrange(8)]])]],
+            'use_derived': 0}
+    if rng.random() < 0.3: case['history'].append(['setbasis', 0, rng.choice(['mol', 'wt'])])
+    case['material'] = {'kind': rng.choice(['stream', 'stream', 'numpy']), 'flows': gen_feed(rng, case, P * N, True)}
+    return case
 
 def window_case(short, two=False, basis='mol'):
     """Ca + Cc' style: co-reactant short of what full conversion needs by 2^-short"""
@@ -325,7 +403,8 @@ WITNESSES = [{'key': 'C05:phaseless-reaction-on-multistream', 'case': WIT_MULTI}
 
 def gen_cases(rng, tier):
     n = 330 if tier == 'quick' else 6000
-    return [gen_case(rng) for _ in range(n)]
+    return ([gen_case(rng) for _ in range(n)] + [gen_cab_case(rng) for _ in range(n // 11)]
+            + [gen_lump_case(rng) for _ in range(n // 11)] + [gen_setcopy_case(rng) for _ in range(n // 22)])
 
 # ------------------------------------------------------------------ implementation side
 def errname(ex):
@@ -375,6 +454,59 @@ def resolve_reactant(r, ident):
         return p * N + j
     return j
 
+def frank(A):
+    """rank and reduced form over the rationals"""
+    A = [list(r) for r in A]; r = 0
+    for c in range(len(A[0]) if A else 0):
+        p = next((i for i in range(r, len(A)) if A[i][c] != 0), None)
+        if p is None: continue
+        A[r], A[p] = A[p], A[r]
+        A[r] = [x / A[r][c] for x in A[r]]
+        for i in range(len(A)):
+            if i != r and A[i][c] != 0: A[i] = [x - A[i][c] * y for x, y in zip(A[i], A[r])]
+        r += 1
+    return r
+
+def fsolve(A, b):
+    """exact solution of the square non-singular system A x = b, None if singular"""
+    n = len(A)
+    M = [list(A[i]) + [b[i]] for i in range(n)]
+    for c in range(n):
+        p = next((i for i in range(c, n) if M[i][c] != 0), None)
+        if p is None: return None
+        M[c], M[p] = M[p], M[c]
+        M[c] = [x / M[c][c] for x in M[c]]
+        for i in range(n):
+            if i != c and M[i][c] != 0: M[i] = [x - M[i][c] * y for x, y in zip(M[i], M[c])]
+    return [M[i][n] for i in range(n)]
+
+def cab_solution(r, constants):
+    """What numpy.linalg returns inside Reaction.correct_atomic_balance, computed exactly: the molar coefficients per
+    chemical after the solve (None when the method raises), and whether the system was consistent"""
+    st = [F(float(x)) for x in np.asarray(r._stoichiometry.to_array(), float).reshape(-1)]
+    P = max(1, len(r._phases))
+    if r._basis == 'wt': st = [x / MW[k % N] for k, x in enumerate(st)]
+    by_mol = [sum(st[p * N + j] for p in range(P)) for j in range(N)]
+    if constants: const = sorted({IDS.index(c) for c in constants})
+    else: const = [flat_ridx(r, 0) % N]
+    unknown = [j for j in range(N) if by_mol[j] != 0 and j not in const]
+    rows = [a for a in range(3) if any(ATOMS[j][a] * by_mol[j] != 0 for j in range(N))]
+    A = [[F(ATOMS[j][a]) for j in unknown] for a in rows]
+    b = [-sum(F(ATOMS[c][a]) * by_mol[c] for c in const) for a in rows]
+    M, K = len(rows), len(unknown)
+    if K == 0 or M == 0: return 'skip', False
+    if M != K:
+        if K > frank(A): return None, False
+        AtA = [[sum(A[i][p] * A[i][q_] for i in range(M)) for q_ in range(K)] for p in range(K)]
+        Atb = [sum(A[i][p] * b[i] for i in range(M)) for p in range(K)]
+        x = fsolve(AtA, Atb)
+    else:
+        x = fsolve(A, b)
+    if x is None: return None, False
+    consistent = all(sum(A[i][p] * x[p] for p in range(K)) == b[i] for i in range(M))
+    for j, v in zip(unknown, x): by_mol[j] = v
+    return by_mol, consistent
+
 def apply_history(case, sets, log):
     """sets: list of (object, [flat member numbers]) in member order.  Every step obtains its handle afresh from the set
     (indexing / slicing), operates on copies only, and appends what it returns to `derived`."""
@@ -384,9 +516,12 @@ def apply_history(case, sets, log):
             where[m] = (obj, i, idx[0])
     n = len(where)
     derived = []
+    src_balanced = [bool(r['balanced']) for r in case['rxns']]
+    balanced = []                   # per derived reaction: obtained from atomically balanced reactions by balance-preserving steps
+    log['setcopies'] = []
     for op in case.get('history', []):
         name = op[0]
-        if name in ('setbasis', 'copy', 'backwards') and not derived:
+        if name in ('setbasis', 'copy', 'backwards', 'iadd', 'isub', 'cab') and not derived:
             op = ['itemcopy', op[1], 0, None]; name = 'itemcopy'
         try:
             if name == 'itemcopy':
@@ -400,14 +535,14 @@ def apply_history(case, sets, log):
                 log['ops'].append(res)
                 new = handle.copy(op[3])
                 if new._stoichiometry is handle._stoichiometry: log['alias'] = True
-                derived.append(new)
+                derived.append(new); balanced.append(src_balanced[m])
             elif name == 'itembackwards':
                 m = op[1] % n; obj, i, off = where[m]
                 handle = obj if isinstance(obj, env()['tmo'].Reaction) else obj[i]
                 log['ops'].append(['itembackwards', m, None if op[2] is None else resolve_reactant(handle, op[2]), op[3]])
                 new = handle.backwards(reactant=op[2], X=op[3])
                 if new._stoichiometry is handle._stoichiometry: log['alias'] = True
-                derived.append(new)
+                derived.append(new); balanced.append(src_balanced[m])
             elif name == 'setbasis':
                 j = op[1] % len(derived)
                 log['ops'].append(['setbasis', j, op[2]])
@@ -415,11 +550,46 @@ def apply_history(case, sets, log):
             elif name == 'copy':
                 j = op[1] % len(derived)
                 log['ops'].append(['copy', j, op[2]])
-                derived.append(derived[j].copy(op[2]))
+                derived.append(derived[j].copy(op[2])); balanced.append(balanced[j])
             elif name == 'backwards':
                 j = op[1] % len(derived)
                 log['ops'].append(['backwards', j, None if op[2] is None else resolve_reactant(derived[j], op[2]), op[3]])
                 derived.append(derived[j].backwards(reactant=op[2], X=op[3]))
+                balanced.append(balanced[j])
+            elif name in ('iadd', 'isub'):
+                j, k = op[1] % len(derived), op[2] % len(derived)
+                if name == 'isub' and derived[j]._basis != derived[k]._basis and derived[j].X == derived[k].X:
+                    name = 'iadd'   # X - X = 0 with coefficients converted between bases: 0/0 or x/0 depending on rounding
+                log['ops'].append([name, j, k])
+                a = derived[j]
+                if name == 'iadd': a += derived[k]
+                else: a -= derived[k]
+                assert a is derived[j]
+                balanced[j] = balanced[j] and balanced[k]
+            elif name == 'cab':
+                j = op[1] % len(derived)
+                d = derived[j]
+                part = sorted({k % N for k, x in enumerate(np.asarray(d._stoichiometry.to_array(), float).reshape(-1)) if x})
+                consts = None if op[2] is None or not part else sorted({IDS[part[c % len(part)]] for c in op[2]})
+                if consts is not None and len(consts) >= len(part): consts = consts[:-1] or None
+                sol, consistent = cab_solution(d, consts)
+                if sol == 'skip' or (sol is not None and sol[flat_ridx(d, 0) % N] == 0):
+                    log['ops'].append(['copy', j, None]); derived.append(d.copy()); balanced.append(balanced[j])
+                else:
+                    log['ops'].append(['cab', j, None if sol is None else [fr_json(x) for x in sol]])
+                    balanced[j] = bool(consistent)
+                    d.correct_atomic_balance(consts)
+            elif name == 'setcopy':
+                gs = [(obj, idx) for obj, idx in sets if not isinstance(obj, env()['tmo'].Reaction)]
+                if not gs:
+                    m = op[1] % n; obj, i, off = where[m]
+                    log['ops'].append(['itemcopy', m, 0, op[2]]); derived.append(obj.copy(op[2])); balanced.append(src_balanced[m])
+                else:
+                    obj, idx = gs[op[1] % len(gs)]
+                    log['ops'].append(['setcopy', idx[0], len(idx), op[2]])
+                    cp = obj.copy(op[2])
+                    log['setcopies'].append({'lo': idx[0], 'n': len(idx), 'basis': op[2], 'rows': [snap(cp[i]) for i in range(len(idx))],
+                                             'new': all(cp._stoichiometry[i] is not obj._stoichiometry[i] for i in range(len(idx)))})
             else:
                 raise ValueError(name)
             log['oks'].append(True)
@@ -427,11 +597,13 @@ def apply_history(case, sets, log):
             log['oks'].append(False)
             log.setdefault('errors', []).append(type(ex).__name__)
     log['derived'] = [snap(d) for d in derived]
+    log['balanced'] = balanced[:len(derived)]
+    log['derived_objs'] = derived
 
 def build_obj(case, log=None):
     tmo = env()['tmo']
     if log is None: log = {}
-    log.update(ops=[], oks=[], derived=[])
+    log.update(ops=[], oks=[], derived=[], setcopies=[], balanced=[], use=None)
     rs = [build_rxn(case, s) for s in case['rxns']]
     k = case['kind']
     if k == 'single':
@@ -453,6 +625,9 @@ def build_obj(case, log=None):
         apply_history(case, sets, log)
     if case['material']['kind'] == 'retarget':
         obj.reset_chemicals(env()['thermo'][case['material']['pkg']].chemicals)
+    if case.get('use_derived') is not None and log.get('derived_objs'):
+        log['use'] = case['use_derived'] % len(log['derived_objs'])
+        return log['derived_objs'][log['use']]
     return obj
 
 def make_material(case, flows=None):
@@ -471,6 +646,12 @@ def make_material(case, flows=None):
             s = tmo.Stream(None, thermo=th)
             s.imol.data[:] = flows
         return s, (lambda: np.asarray(s.imol.data.to_array(), float).reshape(-1))
+    if m.get('pre_views'):
+        inner = stream
+        def stream(pkg, phases):
+            st_, rd = inner(pkg, phases)
+            st_.imass.data; st_.F_mass; st_.ivol.data     # the views now exist and are cached on the stream
+            return st_, rd
     if kind == 'stream': return stream('A', ph)
     if kind == 'retarget':
         if m['sub'] == 'stream': return stream(m['pkg'], ph)
@@ -502,7 +683,7 @@ def run_impl(case):
     except Exception as ex:
         out['ctor_err'] = errname(ex); out['ctor_cls'] = type(ex).__name__
         return out
-    out['hist'] = log
+    out['hist'] = {k: v for k, v in log.items() if k != 'derived_objs'}
     mat, read = make_material(case)
     try:
         ret = obj(mat)
@@ -596,6 +777,10 @@ def chop(o):
     if n == 'setbasis': return f'(HSetBasis {cnat(o[1])} {cbool(o[2] == "wt")})'
     if n == 'copy': return f'(HCopy {cnat(o[1])} {cb(o[2])})'
     if n == 'backwards': return f'(HBackwards {cnat(o[1])} {copt(o[2], cnat)} {copt(o[3], q)})'
+    if n == 'iadd': return f'(HIAdd {cnat(o[1])} {cnat(o[2])})'
+    if n == 'isub': return f'(HISub {cnat(o[1])} {cnat(o[2])})'
+    if n == 'cab': return f'(HCab {cnat(o[1])} {copt(None if o[2] is None else qlist([F(x) for x in o[2]]))})'
+    if n == 'setcopy': return f'(HSetCopy {cnat(o[1])} {cnat(o[2])} {cb(o[3])})'
     raise ValueError(n)
 
 def cobj_final(case):
@@ -610,10 +795,16 @@ def coq_case(case, out):
     d = qlist([F(x) for x in out['data']])
     other = cbool(case["material"]["kind"] == "other")
     if case.get('history'):
-        h = out.get('hist', {'ops': [], 'oks': [], 'derived': []})
-        return (f'(hist_case_eqb {other} {mws_term(case)} {cobj(case)} {clist([chop(o) for o in h["ops"]])} '
-                f'{clist(h["oks"], cbool)} {clist([csnap(x) for x in h["derived"]])} {crun(case)} '
-                f'{cerr(out["ctor_err"])} {cerr(out["err"])} {d})')
+        h = out.get('hist', {'ops': [], 'oks': [], 'derived': [], 'setcopies': [], 'use': None})
+        t = (f'(hist_case_eqb {other} {mws_term(case)} {cobj(case)} {clist([chop(o) for o in h["ops"]])} '
+             f'{clist(h["oks"], cbool)} {clist([csnap(x) for x in h["derived"]])} {copt(h.get("use"), cnat)} {crun(case)} '
+             f'{cerr(out["ctor_err"])} {cerr(out["err"])} {d})')
+        for sc in h.get('setcopies', []):
+            cb = copt(None if sc['basis'] is None else cbool(sc['basis'] == 'wt'))
+            t = (f'({t} && {cbool(sc["new"])} && match {cobj(case)} with Ok o_ => res_rows_eqb (setcopy_rows {mws_term(case)} '
+                 f'(firstn {cnat(sc["n"])} (skipn {cnat(sc["lo"])} (flat_members o_))) {cb}) {clist([csnap(x) for x in sc["rows"]])} '
+                 f'| Err _ => false end)')
+        return t
     return (f'(case_eqb {other} {cobj_final(case)} {crun(case)} '
             f'{cerr(out["ctor_err"])} {cerr(out["err"])} {d})')
 
@@ -700,10 +891,74 @@ def apply_ref(case, rs, mol):
 def close(a, b, tol=1e-9):
     return len(a) == len(b) and all(abs(x - y) <= tol * max(1, abs(x), abs(y)) for x, y in zip(a, b))
 
+def oracle_derived(case):
+    """the clauses for a reaction the library itself derived (copy, re-base, reverse, +=, -=, correct_atomic_balance):
+    exactly X x feed of ITS reactant is consumed, the others follow ITS coefficients per unit of reactant; atoms and
+    mass are conserved when it was derived from balanced reactions; both bases agree on a stream"""
+    e = env()
+    m = case['material']; kind = m['kind']; ph = case['phases']; P = max(1, len(ph))
+    log = {}
+    try:
+        target = build_obj(case, log)
+    except Exception as ex:
+        return f'construct: well-formed reaction rejected with {type(ex).__name__}: {ex}'
+    j = log['use']
+    how = ' after ' + ', '.join(o[0] for o in log['ops'])
+    basis = target._basis
+    st = [F(float(x)) for x in np.asarray(target._stoichiometry.to_array(), float).reshape(-1)]
+    r = flat_ridx(target, 0); X = F(float(target.X))
+    feed = [F(x) for x in m['flows']]
+    on_mass = kind == 'stream' and basis == 'wt'
+    buf = [x * MW[k % N] for k, x in enumerate(feed)] if on_mass else feed
+    if st[r] == 0: return None
+    exp = [b + X * buf[r] * c / -st[r] for b, c in zip(buf, st)]
+    neg = float(sum(x for x in exp if x < 0))
+    exp = [x / MW[k % N] for k, x in enumerate(exp)] if on_mass else exp
+    mat, read = make_material(case)
+    try:
+        target(mat)
+    except Exception as ex:
+        if type(ex).__name__ == 'InfeasibleRegion':
+            if neg < -1e-13: return None
+            return f'infeasible: derived reaction{how} raised InfeasibleRegion although X x feed x coefficients leaves no flow negative'
+        return f'derived: well-formed call of the derived reaction{how} raised {type(ex).__name__}: {ex}'
+    if neg < -1e-11: return f'infeasible: derived reaction{how} returned normally although flows of {neg} would be negative'
+    got = [float(x) for x in read()]
+    want = [max(float(x), 0.0) for x in exp]
+    if not close(got, want):
+        return (f'derived-consumed: reaction{how} (X={float(X)}, reactant coefficient {float(st[r])}) changed the reactant by '
+                f'{got[r] - float(feed[r])}, X x feed = {float(X * feed[r])}; flows {got}, expected {want}')
+    as_mass = kind in ('numpy', 'sparse') and basis == 'wt'
+    if log['balanced'][j]:
+        tomol = (lambda v: [x / MW[k % N] for k, x in enumerate(v)]) if as_mass else (lambda v: list(v))
+        b = tomol([float(x) for x in feed]); a = tomol(got)
+        A = e['formula']
+        tb = [sum(b[p * N + c] for p in range(P)) for c in range(N)]; ta = [sum(a[p * N + c] for p in range(P)) for c in range(N)]
+        scale = max(1.0, max(tb))
+        if np.abs(A @ np.array(ta) - A @ np.array(tb)).max() > 1e-9 * scale * 8:
+            return f'derived-atoms: reaction{how} of balanced reactions changed the element flows from {list(A @ np.array(tb))} to {list(A @ np.array(ta))}'
+        if abs(np.dot(MW, ta) - np.dot(MW, tb)) > 1e-9 * scale * 64:
+            return f'derived-mass: reaction{how} of balanced reactions changed the total mass from {np.dot(MW, tb)} to {np.dot(MW, ta)}'
+    if kind == 'stream':
+        other = 'wt' if basis == 'mol' else 'mol'
+        try:
+            t2 = target.copy(other); m2, r2 = make_material(case); t2(m2)
+            if not close([float(x) for x in r2()], got):
+                return f'derived-basis: reaction{how}: {basis} basis gives {got}, its {other} version gives {[float(x) for x in r2()]}'
+        except Exception as ex:
+            if type(ex).__name__ != 'InfeasibleRegion' or neg == 0:
+                return f'derived-basis: reaction{how}: {basis} basis returned normally, its {other} version raised {type(ex).__name__}'
+    return None
+
 def oracle(case):
     e = env()
     m = case['material']; kind = m['kind']; ph = case['phases']; P = max(1, len(ph))
     if not wellformed(case): return None
+    if case.get('use_derived') is not None and case.get('history'):
+        probe = {}
+        try: build_obj(case, probe)
+        except Exception: probe = {}
+        if probe.get('use') is not None: return oracle_derived(case)
     rs = reference(case)
     if rs is None: return None                      # a constructor error is the expected outcome
     if case['kind'] != 'single' and len({(s['rebase'] or s['basis']) for s in case['rxns']}) > 1: return None
@@ -805,7 +1060,8 @@ def oracle(case):
     if not close(got, exp):
         if kind == 'sparse' and ph and close(got, [float(x) for x in molA]) and not close(exp, [float(x) for x in molA]):
             return 'sparse-array: bare SparseArray passed to a phase-tagged reaction is returned unreacted'
-        return f'{kind}: flows after the reaction {got} differ from X*feed*stoichiometry {exp}'
+        hist = f" (after {', '.join(o[0] for o in log.get('ops', []))} on copies / the set's copy)" if log.get('ops') else ''
+        return f'{kind}: flows after the reaction {got} differ from X*feed*stoichiometry {exp}{hist}'
     # conservation (balanced reactions only); quantities in moles
     if all(s['balanced'] for s in case['rxns']) and not (kind == 'massview' and basis == 'mol'):
         to_mol = (lambda v: [x / MW[k % N] for k, x in enumerate(v)]) if (kind in ('numpy', 'sparse') and basis == 'wt') else (lambda v: v)
